@@ -13,6 +13,6 @@ PROP = "C11"
 
 
 def run(tier, seed):
-    return progcheck.run(PROP, tier, seed, "oracle_c11", ["general", "rowlevel", "agg", "join", "scen_summarize_key", "subquery", "scen_subq_hidden", "scen_join_suffix", "scen_rename_hidden", "rowlevel"], 300, 8000, also=("C01",),
+    return progcheck.run(PROP, tier, seed, "oracle_c11", ["general", "rowlevel", "agg", "join", "scen_summarize_key", "subquery", "scen_subq_hidden", "scen_join_suffix", "scen_rename_hidden", "rowlevel", "scen_odd_names"], 300, 8000, also=("C01",),
                          assumptions=["that both backends emit exactly the select list the metadata describes is checked on the real code "
                                       "(oracle) and by the correspondence; the refinement theorem covering it is part of C01's model"])
